@@ -72,14 +72,17 @@ class _TextParser(HTMLParser):
     elif tag.lower() == "font":
       for attr in attrs:
         if attr[0] == "color" and attr[1] is not None:
-          color = parse_color(attr[1])
+          try:
+            color = parse_color(attr[1])
+          except ValueError:
+            color = None
           break
       else:
         LOGGER.warning("Font tag without a color attribute at line %s", self.line_num)
         return
 
       if color is None:
-        LOGGER.warning("Unknown color %s at line %s", attrs["color"], self.line_num)
+        LOGGER.warning("Unknown color %s at line %s", attr[1], self.line_num)
         return
 
       span.set_style(styles.StyleProperties.Color, color)
